@@ -145,3 +145,52 @@ func c01applySlice_ELEMTYPE(rank int, copyFrom bool) {
 	vsym.Assert(vsym.Or(hit, r.Impl[kk] == old[kk]), "unaddressed-cell-unchanged")
 }
 
+
+// c01selfCopy_ELEMTYPE: CopyFrom where destination and source are two arbitrary stepped views of
+// the SAME root array (equal shape; they may overlap, share their first element, or be the same
+// view).  Expected storage afterwards: either the "snapshot" result (every destination element
+// receives the value its source element had before the call) or the "forward" result (elements
+// copied one by one in row-major order, later reads seeing earlier writes) - the implementation
+// uses one or the other depending on contiguity, and the property fixes the addressed cells and
+// the frame, not the order.  Every cell outside the destination's footprint keeps its value in
+// both.
+func c01selfCopy_ELEMTYPE(rank int) {
+	fullRoot := rank >= 2 && !c01deep_ELEMTYPE()
+	r, n, off := c01rootx_ELEMTYPE(rank, fullRoot)
+	v, vd, org, stp := c01onev_ELEMTYPE("v", r, n)
+	sloc, sdims, sstep := c01slice_ELEMTYPE("sv", n)
+	for a := 0; a < rank; a++ {
+		vsym.Assume(sdims[a] == vd[a])
+	}
+	src := r.Slice(sloc, sdims, sstep)
+	old := make([]ELEMTYPE, len(r.Impl))
+	copy(old, r.Impl)
+	vsym.Reach("selfcopy")
+	v.CopyFrom(src)
+	snap := make([]ELEMTYPE, len(old))
+	copy(snap, old)
+	seq := make([]ELEMTYPE, len(old))
+	copy(seq, old)
+	e := make([]int, rank)
+	var walk func(a int)
+	walk = func(a int) {
+		if a == rank {
+			dc := c01cell_ELEMTYPE(e, org, stp, off)
+			sc := c01cell_ELEMTYPE(e, sloc, sstep, off)
+			snap[dc] = old[sc]
+			seq[dc] = seq[sc]
+			return
+		}
+		for x := 0; x < vd[a]; x++ {
+			e[a] = x
+			walk(a + 1)
+		}
+	}
+	walk(0)
+	okSnap, okSeq := true, true
+	for k := 0; k < len(old); k++ {
+		okSnap = vsym.And(okSnap, r.Impl[k] == snap[k])
+		okSeq = vsym.And(okSeq, r.Impl[k] == seq[k])
+	}
+	vsym.Assert(vsym.Or(okSnap, okSeq), "copy-between-views-of-one-array-writes-the-addressed-cells")
+}
